@@ -212,7 +212,11 @@ def run_history(h, agg):
         model.apply(op)
         for who, inst in (("same instance", cs), ("fresh instance", env.new_csvpaths()), ("long-lived reader instance", observer)):
             agg.count("store_checks")
-            pr = check_store(inst, model, None, w)
+            try:
+                pr = check_store(inst, model, None, w)
+            except Exception as e:  # noqa
+                w["exc"] = f"{type(e).__name__}: {str(e)[:200]}"
+                pr = "store-api-raises"
             if pr:
                 w["seen_by"] = who
                 return pr, w
